@@ -191,7 +191,7 @@ def main():
         "checks": checks,
         "not_applicable": na,
         "notes": "Checks import Conductor live from /repo/src (editable install), so they always run against the current working tree. "
-                 "Genuine defects found are recorded in known_findings.json (fixed entries name the fix: commit in /repo).",
+                 "Genuine defects found are recorded in known_findings.json (fixed entries name the fix: commit in /repo; one entry has status known: C01 order:only-through-cached-tasks, printed as KNOWN-FINDING, see DESIGN 10.3b and findings/).",
     }
     with open(os.path.join(ROOT, "MANIFEST.json"), "w") as f:
         json.dump(manifest, f, indent=1)
